@@ -484,6 +484,11 @@ class Executor:
                 return None
             except ForkRequest as fk:
                 return self.do_fork(path, fk)
+            except (ExecError, TypeError, AttributeError, KeyError, IndexError) as e:
+                # engine limitation on this path (e.g. an abstracted value used concretely): the path ends in an
+                # 'error' outcome, which every harness treats as not-discharged (never as success)
+                path.outcome = ("error", "%s: %s @ %s" % (type(e).__name__, e, self.site(path)[:2]))
+                return None
         return None
 
     def do_fork(self, path, fk):
